@@ -77,7 +77,9 @@ class Reader:
     effect of a method on `self.transform` is obtained by running it once per kind. Followed: `super().m(...)`, helper
     methods `self._x(...)` of the torchtree.evolution classes in the MRO (also as factories whose return value is
     assigned), local variables, `isinstance(self.transform, K)`, `not/and/or`, `x is (not) None`, conditional
-    expressions, `type(self.transform)(self, …)`, `self.transform.__class__(self, …)`. A test whose value cannot be
+    expressions, `type(self.transform)(self, …)`, `self.transform.__class__(self, …)`, tuple assignments, local variables
+    holding one of the two transform classes, module-level torchtree functions (also re-exported from another module) and
+    `functools.singledispatch` functions (the implementation registered for the class of the first argument). A test whose value cannot be
     determined and whose branches store to `.transform` (or return) is UNRECOGNISED."""
 
     def __init__(self, cls):
@@ -135,12 +137,59 @@ class Reader:
         finally:
             self.depth -= 1
 
+    def kind_class(self, kind):
+        import importlib
+
+        mod = importlib.import_module("torchtree.evolution.tree_height_transform")
+        name = next(n for n, k in KINDS.items() if k == kind)
+        for m_ in (sys.modules.get(self.cls.__module__), mod):
+            c = getattr(m_, name, None)
+            if c is not None:
+                return c
+        raise Unrecognised("class of kind " + kind + " not found")
+
+    def call_function(self, fn_obj, args, kwargs):
+        """evaluate a plain (module-level) function of torchtree on already evaluated arguments"""
+        self.depth += 1
+        if self.depth > 12:
+            raise Unrecognised("call chain too deep")
+        try:
+            fn_obj = getattr(fn_obj, "__wrapped__", fn_obj)
+            node = ast.parse(textwrap.dedent(inspect.getsource(fn_obj))).body[0]
+            if not isinstance(node, ast.FunctionDef):
+                return UNKNOWN
+            params = [a.arg for a in node.args.args]
+            env = {}
+            for p_, d in zip(params[len(params) - len(node.args.defaults):], node.args.defaults):
+                env[p_] = d.value if isinstance(d, ast.Constant) else UNKNOWN
+            for p_, v in zip(params, args):
+                env[p_] = v
+            env.update(kwargs)
+            for p_ in params:
+                env.setdefault(p_, UNKNOWN)
+            owner = type("_M", (), {"__module__": fn_obj.__module__})
+            try:
+                self.block(node.body, owner, env)
+            except _Return as r:
+                return r.value
+            return None
+        finally:
+            self.depth -= 1
+
     # ---- expressions
     def ev(self, e, owner, env):
         if isinstance(e, ast.Constant):
             return e.value
         if isinstance(e, ast.Name):
-            return env.get(e.id, UNKNOWN)
+            if e.id in env:
+                return env[e.id]
+            if e.id == "self":
+                return ("self",)
+            if e.id in KINDS:
+                return ("cls", KINDS[e.id])
+            return UNKNOWN
+        if isinstance(e, ast.Tuple):
+            return ("tuple", [self.ev(v, owner, env) for v in e.elts])
         if _is_self_transform(e):
             return ("tr", self.kind)
         if isinstance(e, ast.UnaryOp) and isinstance(e.op, ast.Not):
@@ -174,10 +223,26 @@ class Reader:
                 return UNKNOWN
             # constructors of the two transforms, built for this tree
             kn = _kind_name(f)
-            if kn is not None:
-                if not (e.args and isinstance(e.args[0], ast.Name) and e.args[0].id == "self"):
+            fv = self.ev(f, owner, env) if isinstance(f, ast.Name) else None
+            if kn is None and isinstance(fv, tuple) and fv[0] == "cls":
+                kn = fv[1]  # a local variable holding one of the two transform classes
+            if kn is not None and not (isinstance(f, ast.Name) and f.id in env and not (isinstance(fv, tuple) and fv[0] == "cls")):
+                if not (e.args and self.ev(e.args[0], owner, env) == ("self",)):
                     raise Unrecognised("transform built for another tree: " + ast.unparse(e))
                 return ("tr", kn)
+            # module-level functions of torchtree (also re-exported ones), incl. functools.singledispatch functions:
+            # the implementation registered for the class of the first argument is the one evaluated
+            if isinstance(f, ast.Name) and f.id not in env:
+                obj = getattr(sys.modules.get(owner.__module__), f.id, None)
+                args = [self.ev(a, owner, env) for a in e.args]
+                kwargs = {k.arg: self.ev(k.value, owner, env) for k in e.keywords if k.arg}
+                if obj is not None and hasattr(obj, "dispatch") and hasattr(obj, "registry"):
+                    if not (args and isinstance(args[0], tuple) and args[0][0] == "tr" and args[0][1] is not None):
+                        return UNKNOWN
+                    klass = self.kind_class(args[0][1])
+                    return self.call_function(obj.dispatch(klass), args, kwargs)
+                if inspect.isfunction(obj) and getattr(obj, "__module__", "").startswith("torchtree."):
+                    return self.call_function(obj, args, kwargs)
             if (isinstance(f, ast.Call) and isinstance(f.func, ast.Name) and f.func.id == "type"
                     and len(f.args) == 1) or (isinstance(f, ast.Attribute) and f.attr == "__class__"):
                 inner = f.args[0] if isinstance(f, ast.Call) else f.value
@@ -233,6 +298,11 @@ class Reader:
             if st.value is not None:
                 v = self.ev(st.value, owner, env)
                 for t in targets:
+                    if isinstance(t, ast.Tuple) and isinstance(v, tuple) and v[0] == "tuple" and len(v[1]) == len(t.elts):
+                        for te, tv in zip(t.elts, v[1]):
+                            if isinstance(te, ast.Name):
+                                env[te.id] = tv
+                        continue
                     if isinstance(t, ast.Name):
                         env[t.id] = v
                     elif _touches_transform(t):
